@@ -513,7 +513,10 @@ func c08states(c *rig.Ctx) {
 		"reaches), remote-tracking refs of a file:// remote (one on a commit no local branch reaches, after push+fetch), staged+unstaged edits, " +
 		"ANALYZE TABLE, deleted branches (garbage probes), plus sessions holding an open transaction (rows / a conflicted merge) across the " +
 		"collection. Each repository is collected three times (default/--full/--shallow x archive level 0/1; third time with the " +
-		"kill_connections safepoint controller) with fresh garbage before each, then the server is restarted. Oracle: SQL fingerprint + " +
+		"kill_connections safepoint controller; a default collection first for 2/3 of the repositories and a --full one after the gaps for all) " +
+		"with fresh garbage before each; between the collections ref mutations re-home old-generation data under new-generation-class roots (tag + " +
+		"branch delete / branch -f backwards, soft reset, stash + hard reset, conflicted merge + source branch delete, tag delete, branch copy + " +
+		"delete), the comparison is re-based after each batch; then the server is restarted. Oracle: SQL fingerprint + " +
 		"Go-API fingerprint (every dataset address, every address a working set / stash names) equal before/after; chunk-closure walk from the " +
 		"store root and those addresses (present + bytes hash to address); dolt fsck after shutdown; finally every state is consumed (abort / " +
 		"continue / pop / commit) and compared with rows recorded when it was created. distinct = (feature set, rebase variant, gc sequence)")
